@@ -78,7 +78,7 @@ def gen_case(rng):
             regs.append([a - rng.choice([0, 0, 1]), b + rng.choice([0, 0, 2])])
         crit = ['region', regs]
     return {'nodes': nodes, 'edges': edges, 'lower': lower, 'upper': upper, 'decay_factor': decay[0], 'decay_power': decay[1],
-            'base': base, 'minf': minf, 'sep': rng.choice([0, 1, 1, 2, 2, 3]), 'crit': crit}
+            'base': base, 'minf': minf, 'sep': rng.choice([0, 0, 1, 1, 2, 2, 3]), 'crit': crit, 'via_processor': rng.random() < 0.5}
 
 
 def generate(rng, tier):
@@ -99,7 +99,12 @@ def run_impl(inp):
     import vermouth
     import vermouth.molecule
     from vermouth.processors import apply_rubber_band as arb
-    mol = vermouth.molecule.Molecule()
+    import vermouth.forcefield
+    ff = vermouth.forcefield.ForceField(name='ffc15')
+    # what the force field would choose when the caller gives nothing: must lose against explicit arguments, 0 included
+    ff.variables['elastic_network_res_min_dist'] = 5
+    ff.variables['elastic_network_bond_type'] = 1
+    mol = vermouth.molecule.Molecule(force_field=ff)
     mol.meta['moltype'] = 'm'
     for nd in inp['nodes']:
         attrs = {'sel': nd['sel'], 'resid': nd['resid'], 'resname': nd['resname'], 'atomname': 'BB'}
@@ -122,8 +127,14 @@ def run_impl(inp):
     res = {}
     try:
         with np.errstate(all='ignore'):
-            arb.apply_rubber_band(mol, lambda a: a.get('sel'), inp['lower'], inp['upper'], inp['decay_factor'],
-                                  inp['decay_power'], inp['base'], inp['minf'], 6, criterion, inp['sep'])
+            if inp.get('via_processor'):
+                # through the processor, with every choice given explicitly
+                arb.ApplyRubberBand(inp['lower'], inp['upper'], inp['decay_factor'], inp['decay_power'], inp['base'], inp['minf'],
+                                    res_min_dist=inp['sep'], bond_type=6, selector=lambda a: a.get('sel'),
+                                    domain_criterion=criterion).run_molecule(mol)
+            else:
+                arb.apply_rubber_band(mol, lambda a: a.get('sel'), inp['lower'], inp['upper'], inp['decay_factor'],
+                                      inp['decay_power'], inp['base'], inp['minf'], 6, criterion, inp['sep'])
         res['bonds'] = [[list(b.atoms), [float(x) for x in b.parameters[1:]]] for b in mol.interactions.get('bonds', [])]
     except ValueError:
         res['error'] = 'missing'
@@ -237,7 +248,7 @@ def nontrivial(inp, out):
 
 
 def describe(inp, out):
-    return {'n_nodes': len(inp['nodes']), 'n_selected': sum(1 for nd in inp['nodes'] if nd['sel']), 'crit': inp['crit'][0], 'regions_overlap': inp['crit'][0] == 'region' and any(a[0] <= b[1] and b[0] <= a[1] for i, a in enumerate(inp['crit'][1]) for b in inp['crit'][1][i + 1:]),
+    return {'n_nodes': len(inp['nodes']), 'n_selected': sum(1 for nd in inp['nodes'] if nd['sel']), 'crit': inp['crit'][0], 'via_processor': bool(inp.get('via_processor')), 'regions_overlap': inp['crit'][0] == 'region' and any(a[0] <= b[1] and b[0] <= a[1] for i, a in enumerate(inp['crit'][1]) for b in inp['crit'][1][i + 1:]),
             'sep': inp['sep'], 'n_bonds': min(len(out.get('bonds', [])), 20), 'error': out.get('error', 'none'),
             'warned_nan': out['warned'], 'negative_minf': inp['minf'] < 0,
             'decay': (inp['decay_factor'], inp['decay_power']) != (0.0, 0.0)}
